@@ -11,7 +11,7 @@ prop=$(python3 -c "import json;print(json.load(open('$S/meta.json'))['property']
 demo_cmd=$(python3 -c "import json;print(json.load(open('$S/meta.json'))['demo_cmd'])")
 echo "== $prop :: $demo_cmd"
 # place demo files
-for f in $S/*_test.go; do
+for f in $S/*_test.go $S/zz_seed_shim.go; do [ -f "$f" ] || continue
   d=$(grep -l . $S/demo.txt >/dev/null; python3 - "$S" "$f" <<'PY'
 import sys,os,re,json
 S,f=sys.argv[1],sys.argv[2]
